@@ -259,6 +259,7 @@ MUST_INVALIDATE = {
     "armi.reactor.blocks.Block.setHeight": "volume = area x height",
     "armi.reactor.blocks.Block.replaceBlockWithBlock": "all children replaced",
     "armi.reactor.blocks.Block.add": "a component was added",
+    "armi.reactor.blocks.Block.insert": "a component was inserted (the sibling primitive of add)",
     "armi.reactor.blocks.Block.remove": "a component was removed",
     "armi.reactor.composites.ArmiObject.adjustMassFrac": "densities changed",
     "armi.reactor.composites.Composite._syncParameters": "parameters overwritten from another process",
@@ -567,6 +568,23 @@ def r12_assembly_area_and_merge(idx, r):
     r.require(bool(oks) and len(oks) == len(sets), "mergeNuclidesInto:sum-of-both-contributions", g, msg="each nuclide of either component receives the sum of both contributions (atoms conserved for shared nuclides)")
 
 
+def r13_block_primitives_invalidate(idx, r):
+    """Composite.add / insert / remove change which components a block holds; Composite itself clears no cache and does not re-arm the derived
+    shape.  Block must therefore override each of the three primitives (and drop its caches in it): one it merely inherits changes the block's
+    contents while the cached volumes and the derived coolant volume stay those of the old contents."""
+    blk = idx.cls("armi.reactor.blocks.Block")
+    for name in ("add", "insert", "remove"):
+        f = blk.methods.get(name)
+        if f is None:
+            r.violate(f"Block.{name}:overridden-and-invalidating", blk, f"Block inherits Composite.{name} unchanged: a component {name}ed this way leaves the cached block volume and the derived-shape volume stale "
+                      "(block volume larger than its cell, coolant mass too high) until some other call happens to clear the cache")
+            continue
+        okc = any(dotted(c.func) == "self.clearCache" for c in iter_calls(f.node)) and any((dotted(c.func) or "").endswith(f"Composite.{name}") or (call_attr(c) == name and "super()" in norm(c.func)) for c in iter_calls(f.node))
+        r.require(okc, f"Block.{name}:overridden-and-invalidating", f, msg=f"Block.{name} must go through Composite.{name} and drop the block's caches")
+        if name in ("add", "insert"):
+            r.require(any(isinstance(x, ast.Assign) and norm(x) == "self.derivedMustUpdate = True" for x in walk_local(f.node)), f"Block.{name}:re-arms-the-derived-shape", f, msg="adding a component changes what is left for the derived shape")
+
+
 def run(idx, chk):
     chk.explanation = (
         "C02: 24 conversion/accounting functions are typed in the free abelian group of physical units (cm, g, mol, barn, atom) plus a role generator "
@@ -598,3 +616,5 @@ def run(idx, chk):
                  necessary="volumes are divided by the symmetry factor of the IN-PLANE position; mass of an element is the sum over all its nuclides")
     chk.run_rule("R02.12", "Assembly.getArea is the symmetry-reduced area of its first block; merged densities are sums of both contributions", lambda r: r12_assembly_area_and_merge(idx, r), floor=3,
                  necessary="volume at assembly level = sum of block volumes; merging conserves the atoms of every nuclide")
+    chk.run_rule("R02.13", "Block overrides each child-list primitive (add, insert, remove) and drops its caches there", lambda r: r13_block_primitives_invalidate(idx, r), floor=5,
+                 necessary="block volume = sum of the volumes of the components it holds now")
